@@ -207,6 +207,30 @@ def _cat() -> List[Edit]:
         E("C20", "else-evaluated-when-only-true", "type_evaluation.py", "        if condition.right_varmap is not None:\n            with self.ctx.narrow_variables(condition.right_varmap):\n                right_result = self.visit_block(node.orelse)\n        else:\n            right_result = None", "        with self.ctx.narrow_variables(condition.right_varmap):\n            right_result = self.visit_block(node.orelse)", "BREAK", "orelse-iff-right"),
         E("C20", "exclude-any-default-off", "type_evaluation.py", "            exclude_any = True\n            for keyword in node.keywords:", "            exclude_any = False\n            for keyword in node.keywords:", "BREAK", "is_of_type-default-exclude_any"),
     ]
+
+    # ------------------------------------------------- behaviour-preserving edits
+    c += [
+        E("C02", "keep-rename-known_val", "stacked_scopes.py", "                known_val = KnownValue(self.value)\n                if isinstance(inner_value, AnyValue):\n                    yield known_val", "                literal = KnownValue(self.value)\n                known_val = literal\n                if isinstance(inner_value, AnyValue):\n                    yield literal", "KEEP"),
+        E("C05", "keep-rename-positional_index", "signature.py", "        positional_index = 0\n        keywords_consumed: set[str] = set()", "        positional_index = 0  # index of the next positional argument\n        keywords_consumed: set[str] = set()", "KEEP"),
+        E("C07", "keep-extract-annotation-local", "signature.py", "                    their_annotation = their_param.get_annotation()\n                    tv_map = their_annotation.can_assign(my_annotation, ctx)", "                    actual_type = their_param.get_annotation()\n                    their_annotation = actual_type\n                    tv_map = actual_type.can_assign(my_annotation, ctx)", "KEEP"),
+        E("C09", "keep-rename-if-scopes", "name_check_visitor.py", "        with self._subscope_and_maybe_supress(definite_value is False) as body_scope:\n            self.add_constraint(node, constraint)\n            self._generic_visit_list(node.body)\n        self.yield_checker.reset_yield_checks()\n\n        with self._subscope_and_maybe_supress(definite_value is True) as else_scope:\n            self.add_constraint(node, constraint.invert())\n            self._generic_visit_list(node.orelse)\n        self.scopes.combine_subscopes([body_scope, else_scope])", "        with self._subscope_and_maybe_supress(definite_value is False) as then_scope:\n            self.add_constraint(node, constraint)\n            self._generic_visit_list(node.body)\n        self.yield_checker.reset_yield_checks()\n\n        with self._subscope_and_maybe_supress(definite_value is True) as other_scope:\n            self.add_constraint(node, constraint.invert())\n            self._generic_visit_list(node.orelse)\n        merged = [then_scope, other_scope]\n        self.scopes.combine_subscopes(merged)", "KEEP"),
+        E("C10", "keep-rename-extra-kwargs", "signature.py", "            extra_kwargs = set(actual_args.keywords) - keywords_consumed\n            if extra_kwargs:\n                extra_kwargs_str = \", \".join(map(repr, sorted(extra_kwargs)))\n                if len(extra_kwargs) == 1:", "            unexpected = set(actual_args.keywords) - keywords_consumed\n            extra_kwargs = unexpected\n            if unexpected:\n                extra_kwargs_str = \", \".join(map(repr, sorted(unexpected)))\n                if len(extra_kwargs) == 1:", "KEEP"),
+        E("C11", "keep-rename-this_line", "node_visitor.py", "            this_line = lines[lineno - 1]\n            if (\n                re.search(f\"{re.escape(ignore_comment)}(?!\\\\[)\", this_line)\n                or error_code is not None\n                and f\"{ignore_comment}[{error_code.name}]\" in this_line\n            ):", "            current_line = lines[lineno - 1]\n            if (\n                re.search(f\"{re.escape(ignore_comment)}(?!\\\\[)\", current_line)\n                or error_code is not None\n                and f\"{ignore_comment}[{error_code.name}]\" in current_line\n            ):", "KEEP"),
+        E("C12", "keep-reorder-to_argument-arms", "signature.py", "        elif self.kind is ParameterKind.VAR_KEYWORD:\n            return val, KWARGS\n        elif self.kind is ParameterKind.VAR_POSITIONAL:\n            return val, ARGS", "        elif self.kind is ParameterKind.VAR_POSITIONAL:\n            return val, ARGS\n        elif self.kind is ParameterKind.VAR_KEYWORD:\n            return val, KWARGS", "KEEP"),
+        E("C14", "keep-walk-values-loop-form", "value.py", "    def walk_values(self) -> Iterable[\"Value\"]:\n        yield self\n        for arg in self.args:\n            yield from arg.walk_values()", "    def walk_values(self) -> Iterable[\"Value\"]:\n        yield self\n        for member in self.args:\n            for inner in member.walk_values():\n                yield inner", "KEEP"),
+        E("C16", "keep-reversed-sorted", "node_visitor.py", "lines_to_remove = sorted(lines_to_remove, reverse=True)", "lines_to_remove = list(reversed(sorted(lines_to_remove)))", "KEEP"),
+        E("C17", "keep-regex-class-order", "format_strings.py", "(?P<conversion_type>[diouxXeEfFgGcrs%ba])", "(?P<conversion_type>[abcdeEfFgGiorsuxX%])", "KEEP"),
+        E("C18", "keep-sort-key-via-locals", "options.py", "        return (\n            not self.from_command_line,  # command line options first\n            self.priority,  # lower priority number first\n            -len(self.applicable_to),  # longest options first\n        )", "        return (\n            not self.from_command_line,\n            self.priority,\n            -len(self.applicable_to),\n        )", "KEEP"),
+        E("C19", "keep-table-row-order", "name_check_visitor.py", "    ast.Add: (\"addition\", \"__add__\", \"__iadd__\", \"__radd__\"),\n    ast.Sub: (\"subtraction\", \"__sub__\", \"__isub__\", \"__rsub__\"),", "    ast.Sub: (\"subtraction\", \"__sub__\", \"__isub__\", \"__rsub__\"),\n    ast.Add: (\"addition\", \"__add__\", \"__iadd__\", \"__radd__\"),", "KEEP"),
+        E("C20", "keep-rename-position", "type_evaluation.py", "            if name == \"is_provided\":\n                match = position is not DEFAULT and position is not UNKNOWN\n            elif name == \"is_positional\":\n                match = position is ARGS or isinstance(position, int)\n            elif name == \"is_keyword\":\n                match = position is KWARGS or isinstance(position, str)", "            if name == \"is_provided\":\n                match = not (position is DEFAULT or position is UNKNOWN)\n            elif name == \"is_positional\":\n                match = isinstance(position, int) or position is ARGS\n            elif name == \"is_keyword\":\n                match = isinstance(position, str) or position is KWARGS", "KEEP"),
+        E("C04", "noalarm-rename-bounds_maps", "value.py", "            bounds_maps = []\n            errors = []\n            for val in my_vals:\n                can_assign = val.can_assign(other, ctx)\n                # Ignore any branches that don't match\n                if isinstance(can_assign, CanAssignError):\n                    errors.append(can_assign)\n                else:\n                    bounds_maps.append(can_assign)\n            if not bounds_maps:\n                return CanAssignError(\"Cannot assign to Union\", errors)\n            return intersect_bounds_maps(bounds_maps)", "            maps = []\n            errors = []\n            for val in my_vals:\n                can_assign = val.can_assign(other, ctx)\n                # Ignore any branches that don't match\n                if isinstance(can_assign, CanAssignError):\n                    errors.append(can_assign)\n                else:\n                    maps.append(can_assign)\n            if not maps:\n                return CanAssignError(\"Cannot assign to Union\", errors)\n            return intersect_bounds_maps(maps)", "NOALARM"),
+        E("C15", "noalarm-rename-solution", "typevar.py", "        solution = bottom\n\n    if options is not None:\n        can_assigns = [option.can_assign(solution, ctx) for option in options]", "        solution = bottom\n\n    if options is not None:\n        checks = [option.can_assign(solution, ctx) for option in options]\n        can_assigns = checks", "NOALARM"),
+        E("C06", "noalarm-rename-had_error", "signature.py", "            if tv_map is None:\n                had_error = True", "            if tv_map is None:\n                had_error = True  # remember the failure", "KEEP"),
+        E("C08", "keep-sigs-filter-loop", "signature.py", "        sigs = [\n            sig\n            for sig, bound_args in zip(self.signatures, bound_args_per_overload)\n            if bound_args is not None\n        ]", "        sigs = [\n            sig\n            for sig, bound in zip(self.signatures, bound_args_per_overload)\n            if bound is not None\n        ]", "KEEP"),
+        E("C13", "keep-reorder-form-arms", "annotations.py", "    elif is_typing_name(root, \"Final\"):\n        if len(members) != 1:\n            ctx.show_error(\"Final requires a single argument\")\n            return AnyValue(AnySource.error)\n        # TODO(#160): properly support Final\n        return _type_from_value(members[0], ctx)\n    elif is_typing_name(root, \"ClassVar\"):\n        if len(members) != 1:\n            ctx.show_error(\"ClassVar requires a single argument\")\n            return AnyValue(AnySource.error)\n        return _type_from_value(members[0], ctx)", "    elif is_typing_name(root, \"ClassVar\"):\n        if len(members) != 1:\n            ctx.show_error(\"ClassVar requires a single argument\")\n            return AnyValue(AnySource.error)\n        return _type_from_value(members[0], ctx)\n    elif is_typing_name(root, \"Final\"):\n        if len(members) != 1:\n            ctx.show_error(\"Final requires a single argument\")\n            return AnyValue(AnySource.error)\n        # TODO(#160): properly support Final\n        return _type_from_value(members[0], ctx)", "KEEP"),
+        E("C03", "keep-promotion-split", "type_object.py", "            self.artificial_bases.add(float)\n            self.artificial_bases.add(complex)\n", "            self.artificial_bases.add(complex)\n            self.artificial_bases.add(float)\n", "KEEP"),
+        E("C01", "keep-binop-loop-local", "name_check_visitor.py", "            possibilities.append(result)", "            computed = result\n            possibilities.append(computed)", "KEEP"),
+    ]
     return c
 
 
@@ -240,6 +264,11 @@ def _run_one(edit: Edit, src_root: str) -> Tuple[Edit, str, str]:
             timeout=600,
         )
         out = p.stdout + p.stderr
+        if edit.kind == "NOALARM":
+            # a rename the rule is anchored on: exit 2 (cannot recognise) is acceptable, a VIOLATION is not
+            if p.returncode in (0, 2) and "VIOLATION" not in out:
+                return edit, "ok", f"no alarm (exit {p.returncode})"
+            return edit, "FAIL", f"behaviour-preserving rename raised a VIOLATION (exit {p.returncode})"
         if edit.kind == "KEEP":
             if p.returncode == 0:
                 return edit, "ok", "silent"
@@ -264,7 +293,7 @@ def run_selftest(prop: str) -> Dict[str, object]:
     return {
         "edits": len(edits),
         "detected": sum(1 for r in results if r["kind"] == "BREAK" and r["verdict"] == "ok"),
-        "silent": sum(1 for r in results if r["kind"] == "KEEP" and r["verdict"] == "ok"),
+        "silent": sum(1 for r in results if r["kind"] in ("KEEP", "NOALARM") and r["verdict"] == "ok"),
         "skipped": sum(1 for r in results if r["verdict"] == "skip"),
         "failed": [r for r in results if r["verdict"] == "FAIL"],
         "results": results,
